@@ -346,18 +346,16 @@ func (u *Upstream) CloseAll() {
 	}
 }
 
-// DeadAddr returns a loopback address that refuses connections.
+// DeadAddr returns a loopback address that refuses connections: a privileged port nobody listens on
+// (an ephemeral port that was just released could be handed to another process of this shared machine).
 func DeadAddr() (string, error) {
-	ln, err := net.Listen("tcp", "127.0.0.1:0")
-	if err != nil {
-		return "", err
+	for _, a := range []string{"127.0.0.1:1", "127.0.0.1:7", "127.0.0.1:9"} {
+		c, err := net.DialTimeout("tcp", a, time.Second)
+		if err == nil {
+			c.Close()
+			continue
+		}
+		return a, nil
 	}
-	a := ln.Addr().String()
-	ln.Close()
-	c, err := net.DialTimeout("tcp", a, time.Second)
-	if err == nil {
-		c.Close()
-		return "", fmt.Errorf("address %s still accepts", a)
-	}
-	return a, nil
+	return "", fmt.Errorf("no refusing loopback port found")
 }
